@@ -12,6 +12,7 @@ import itertools
 TEXT_ATOMS = [
     "a", "b c", "a,b", 'a"b', '"a"', '"', "'", "[a]", "[", "]", "a]", "[a,b]", "a\nb", "<&>",
     "ä€", " a ", "", "\t", "a;b", "(1;2)", "\\", "1", "true",
+    "a\u2028b", "a\x85b",          # line boundaries for str.splitlines, not for csv / io
 ]
 LOOKALIKES = ["yes", "null", "~", "1e3", "2020-01-01", "0x1F", ": x", "- a", "#c", "{a: b}", "|",
               "No", "1.0", "01:02:03", "[1, 2]"]
@@ -98,7 +99,7 @@ def name_forest(forest, names=None, props=None, prefix=""):
         for t in f:
             i = next(counter)
             nm = names[i] if names else "s%d" % i
-            sec = {"name": nm, "type": "t", "sections": [], "properties": []}
+            sec = {"name": nm, "type": "t", "sections": [], "properties": [], "attrs": {}}
             if props:
                 sec["properties"] = [dict(p) for p in props(i)]
             res.append(sec)
@@ -113,7 +114,7 @@ def doc_of(sections, **attrs):
 
 def simple_doc(prop):
     """One Section with one Property."""
-    return doc_of([{"name": "s", "type": "t", "sections": [], "properties": [prop]}])
+    return doc_of([{"name": "s", "type": "t", "sections": [], "properties": [prop], "attrs": {}}])
 
 
 def count_nodes(spec):
